@@ -7,6 +7,7 @@ log length, raises `Err` when k % 100 == 99), `O.m*(…)` (logged method call), 
 deletes on the opaque object `O` (logged).  Every operand position gets a tracer call with some probability.
 """
 import ast
+import inspect
 
 PRELUDE = '''
 LOG = []
@@ -58,6 +59,9 @@ class _O:
     def __getitem__(self, y): return (2 * weight(y) + 1) % 17
     def __setitem__(self, y, v): LOG.append(('setitem', '', (self, y, v), {}))
     def __delitem__(self, y): LOG.append(('delitem', '', (self, y), {}))
+    def __matmul__(self, y):
+        LOG.append(('call', 'matmul', (y,), {}))
+        return weight(y) + 1
 O = _O()
 # --- mutable state (stream 'mutable' only): what a repeated load reads changes when `bump` is called in between
 class _Box:
@@ -74,6 +78,47 @@ def bump(k):
     L[1] = L[1] + 1
     G += 3
     return 2 * k + 1
+# --- objects whose formatting is observable (streams 'fstring' / 'grammar' only)
+class _Fmt:
+    def __init__(self, k): self.k = k
+    def __format__(self, spec):
+        LOG.append(('call', 'format', (self.k, spec, B.n, len(L)), {}))
+        return '<%d:%s:%d>' % (self.k, spec, B.n)
+    def __repr__(self):
+        LOG.append(('call', 'repr', (self.k, B.n), {}))
+        return 'F%d@%d' % (self.k, B.n)
+    def __str__(self):
+        LOG.append(('call', 'str', (self.k, B.n), {}))
+        return 'f%d@%d' % (self.k, B.n)
+F = _Fmt(0)
+def Fm(k):
+    LOG.append(('call', 'Fm', (k,), {}))
+    return _Fmt(k)
+async def aw(*p):
+    LOG.append(('call', 'aw', p, {}))
+    return 3 + sum(weight(x) for x in p)
+class ACM:
+    def __init__(self, k): self.k = k
+    async def __aenter__(self):
+        LOG.append(('enter', 'a', (self.k,), {}))
+        return self.k + 1
+    async def __aexit__(self, *a):
+        LOG.append(('exit', 'a', (self.k,), {}))
+        return False
+def acm(*p):
+    LOG.append(('call', 'acm', p, {}))
+    return ACM(p[0])
+class AIT:
+    def __init__(self, *p): self.p = list(p)
+    def __aiter__(self): return self
+    async def __anext__(self):
+        LOG.append(('call', 'anext', (len(self.p),), {}))
+        if not self.p:
+            raise StopAsyncIteration
+        return self.p.pop(0)
+def ait(*p):
+    LOG.append(('call', 'ait', p, {}))
+    return AIT(*p)
 '''
 
 
@@ -101,7 +146,7 @@ def canon_val(v, ns):
     if isinstance(v, (set, frozenset)):
         return ['set'] + sorted({str(int(x)) if isinstance(x, int) else repr(x) for x in v})
     if isinstance(v, dict):
-        return ['dict', [[_key(k), canon_val(x, ns)] for k, x in v.items()]]
+        return ['dict', [[_key(k, ns), canon_val(x, ns)] for k, x in v.items()]]
     if isinstance(v, slice):
         return ['slice', canon_val(v.start, ns), canon_val(v.stop, ns), canon_val(v.step, ns)]
     if isinstance(v, ns['CM']):
@@ -110,6 +155,10 @@ def canon_val(v, ns):
         return ['obj', 'O']
     if isinstance(v, ns['_Box']):
         return ['obj', 'B']
+    if isinstance(v, ns['_Fmt']):
+        return ['obj', 'F%d' % v.k]
+    if isinstance(v, float):
+        return ['float', repr(v)]
     if isinstance(v, BaseException):
         if isinstance(v, ns['Err']):
             return ['exc', 'Err', canon_val(v.args[0] if v.args else None, ns)]
@@ -121,10 +170,12 @@ def canon_val(v, ns):
     return ['opaque', type(v).__name__]
 
 
-def _key(k):
+def _key(k, ns=None):
     if isinstance(k, int):
         return str(int(k))
-    return repr(k)
+    if isinstance(k, str) or ns is None:
+        return repr(k)
+    return repr(canon_val(k, ns))      # same text as canon_model_val gives for a non-int, non-str key
 
 
 def canon_model_val(x):
@@ -170,6 +221,10 @@ def canon_model_obs(x):
 
 def run_python(fn_node, args):
     """Compile the FunctionDef and call it on args in a fresh prelude namespace -> observation (canonical)."""
+    # CPython's AST validator does not check the context of a `:=` target: a Load target compiles into bytecode that
+    # can crash the interpreter (the transformer produces such nodes: class walrus_target_context_clobbered_...)
+    if any(isinstance(n, ast.NamedExpr) and not isinstance(getattr(n.target, 'ctx', None), ast.Store) for n in ast.walk(fn_node)):
+        return [['compile-error', 'NamedExprTargetNotStore'], []]
     ns = make_namespace()
     mod = ast.Module(body=[fn_node], type_ignores=[])
     ast.fix_missing_locations(mod)
@@ -181,6 +236,23 @@ def run_python(fn_node, args):
     f = ns[fn_node.name]
     try:
         r = f(*args)
+        if inspect.iscoroutine(r):          # `async def`: the prelude's awaitables never suspend
+            try:
+                while True:
+                    r.send(None)
+            except StopIteration as e:
+                r = e.value
+        elif inspect.isgenerator(r):        # generator: yielded values, what was sent back, and the return value
+            ys = []
+            try:
+                y = next(r)
+                while len(ys) < 50:
+                    ys.append(y)
+                    y = r.send(len(ys) * 2)
+                r.close()
+                r = ('yielded', ys, 'unfinished')
+            except StopIteration as e:
+                r = ('yielded', ys, e.value)
         out = ['return', canon_val(r, ns)]
     except Exception as e:  # noqa
         out = ['raise', canon_val(e, ns)]
@@ -200,7 +272,7 @@ class Gen:
     """One random program.  `hazard_free_bias`: probability of keeping later operands shallow."""
 
     def __init__(self, rng, size=8, depth=3, p_call=0.55, lazy=0.0, raising=0.06, walrus=0.06, shallow_bias=0.5,
-                 temp_names=False, frag=False, temp_hi=False):
+                 temp_names=False, frag=False, temp_hi=False, fstr=0.0):
         self.rng, self.size, self.depth = rng, size, depth
         self.p_call, self.lazy, self.raising, self.walrus = p_call, lazy, raising, walrus
         self.shallow_bias = shallow_bias
@@ -209,6 +281,7 @@ class Gen:
         self.tmpv = 0
         self.temp_names = temp_names
         self.temp_hi = temp_hi
+        self.fstr = 0.0 if frag else fstr
         self.frag = frag      # only constructs of the fragment of C18_sem_partial
 
     # -------------------------------------------------------------- names / tags
@@ -313,9 +386,54 @@ class Gen:
             return '(%s := %s)' % (r.choice(sorted(ints)), self.int_expr(d - 1, ints, seqs))
         if x < 0.64 + self.walrus + self.lazy:
             return self.lazy_expr(d, ints, seqs)
+        if x < 0.64 + self.walrus + self.lazy + self.fstr:
+            return self.fstring_use(d, ints, seqs)
         if x < 0.80:
             return self.atom(ints)
         return self.call(d, ints, seqs)
+
+    def fstring(self, d, ints, seqs):
+        """An f-string with 1-3 replacement fields (names / calls / arbitrary operands), conversions, format specs,
+        nested replacement fields inside the format spec."""
+        r = self.rng
+        parts = []
+        n = r.choice([1, 2, 2, 3])
+        self.feats.add('fstring-%d-fields' % n)
+        for k in range(n):
+            if r.random() < 0.6:
+                parts.append(r.choice(['x', '-', '|', ' ', '{{', '}}', 'a=']))
+            v = self.operand(d - 1, ints, seqs, first=(k == 0)) if r.random() < 0.8 else self.seq_expr(d - 1, ints, seqs)
+            conv = r.choice(['', '', '', '!r', '!s', '!a'])
+            if conv:
+                self.feats.add('fstring-conversion')
+            y = r.random()
+            if y < 0.55:
+                spec = ''
+            elif y < 0.75:
+                self.feats.add('fstring-spec')
+                spec = ':' + r.choice(['>7', '^9', '<3', '12'])
+            else:
+                self.feats.add('fstring-nested-spec')
+                w = self.call(min(d - 1, 1), ints, seqs) if r.random() < 0.6 else str(r.randint(0, 9))
+                spec = ':%s{%s}' % (r.choice(['>', '<', '^']), w)
+            if spec and not conv and v.lstrip('(').startswith(('(', '[')) or (spec and not conv and r.random() < 0.5):
+                conv = '!r'     # a format spec with alignment is valid for any string
+            parts.append('{%s%s%s}' % (v, conv, spec))
+        if r.random() < 0.3:
+            parts.append(r.choice(['.', '!', '}}']))
+        return 'f"%s"' % ''.join(parts)
+
+    def fstring_use(self, d, ints, seqs):
+        r = self.rng
+        f = self.fstring(max(d, 1), ints, seqs)
+        x = r.random()
+        if x < 0.6:
+            return 'tr(%d, %s)' % (self.newtag(), f)
+        if x < 0.8:
+            return 'O[%s]' % f
+        if x < 0.9:
+            return 'O.m1(%s, k=%s)' % (self.atom(ints), f)
+        return '(%s == %s)' % (f, self.atom(ints))
 
     def _subscript(self, base, y, d, ints, seqs):
         r = self.rng
@@ -789,6 +907,197 @@ def annassign_program(rng):
     return 'def f(a, b):\n' + ''.join('    ' + l + '\n' for l in lines), feats
 
 
+def fstring_program(rng):
+    """f-strings in statements of every kind.  An f-string formats each field right after evaluating it and before
+    evaluating the next one: earlier fields format an object whose formatting is observable (F logs and shows the
+    box counter; L and B.n are shown), later fields have side effects (bump mutates B, L, G; tr / Fm log)."""
+    t = 0
+    feats = set()
+    nested = [False]
+    def field(late):
+        nonlocal t
+        t += 1
+        if late:
+            v = rng.choice(['bump(%d)' % t, 'bump(%d)' % t, 'tr(%d, a)' % t, 'tr(%d, tr(%d, b))' % (t, 50 + t), 'Fm(%d)' % t,
+                            'L.append(%d)' % t, 'bump(%d)' % t if nested[0] else '(a := a + %d)' % t, 'O.m1(%d)' % t, 'F'])
+        else:
+            v = rng.choice(['F', 'F', 'L', 'B.n', 'L[0]', 'G', 'a', 'Fm(%d)' % t, 'tr(%d, b)' % t, '(a, B.n)', 'F.k'])
+        conv = rng.choice(['', '', '', '!r', '!s', '!a'])
+        y = rng.random()
+        if y < 0.55:
+            spec = ''
+        elif y < 0.75:
+            spec = ':' + rng.choice(['>7', '^9', '<12'])
+        else:
+            feats.add('fstring-nested-spec')
+            t += 1
+            spec = ':>{%s}' % rng.choice(['a + 6', 'bump(%d)' % t, 'tr(%d)' % t, '7', 'B.n + 5'])
+        if spec and not conv and not v.startswith('F'):
+            conv = '!r'
+        if conv:
+            feats.add('fstring-conversion')
+        return '{%s%s%s}' % (v, conv, spec)
+    def fs():
+        n = rng.choice([1, 2, 2, 2, 3])
+        feats.add('fstring-%d-fields' % n)
+        parts = []
+        for k in range(n):
+            if rng.random() < 0.6:
+                parts.append(rng.choice(['|', '-', 'x=', '{{', '}} ']))
+            parts.append(field(late=(k > 0 and rng.random() < 0.8) or (n == 1 and rng.random() < 0.5)))
+        if rng.random() < 0.1:
+            feats.add('fstring-nested-fstring')
+            parts.insert(0, "{f'{F}' + 'x'}")
+        return 'f"%s"' % ''.join(parts)
+    lines = []
+    outs = []
+    def var():
+        nonlocal t
+        t += 1
+        outs.append('x%d' % t)
+        return 'x%d' % t
+    for _ in range(rng.randint(1, 4)):
+        k = rng.choice(['assign', 'assign', 'call-arg', 'keyword-arg', 'return-tuple', 'expr', 'if-test', 'for-iter', 'with-item',
+                        'assert-test', 'assert-msg', 'raise', 'item-store', 'attr-store', 'delete', 'augassign', 'annassign',
+                        'default-arg', 'lambda-body', 'try-body', 'handler-body', 'finally-body', 'dict-display', 'tuple-operands',
+                        'binop', 'compare', 'while-body', 'subscript-load', 'boolop', 'starred', 'method-receiver'])
+        feats.add('fstring-in-' + k)
+        t += 1
+        if k == 'assign':
+            lines.append('%s = %s' % (var(), fs()))
+        elif k == 'call-arg':
+            lines.append('%s = tr(%d, B.n, %s, L[0])' % (var(), 600 + t, fs()))
+        elif k == 'keyword-arg':
+            lines.append('%s = tr(%d, k=%s, j=B.n)' % (var(), 600 + t, fs()))
+        elif k == 'return-tuple':
+            outs.append(fs())
+        elif k == 'expr':
+            lines.append('tr(%d, %s)' % (600 + t, fs()))
+        elif k == 'if-test':
+            v = var()
+            lines += ['%s = 0' % v, 'if %s:' % fs(), '    %s = tr(%d, %s)' % (v, 600 + t, fs()), 'else:', '    pass']
+        elif k == 'for-iter':
+            v = var()
+            lines += ['%s = ()' % v, 'for q in (%s, %s):' % (fs(), fs()), '    %s = %s + (q, %s)' % (v, v, fs())]
+        elif k == 'with-item':
+            v = var()
+            lines += ['with cm(tr(%d, %s)) as %s:' % (600 + t, fs(), v), '    tr(%d, %s)' % (700 + t, fs())]
+        elif k == 'assert-test':
+            lines.append('assert %s' % fs())
+        elif k == 'assert-msg':
+            lines.append('assert b, %s' % fs())
+        elif k == 'raise':
+            v = var()
+            lines += ['%s = 0' % v, 'try:', '    raise E(%s)' % fs(), 'except Err:', '    %s = %s' % (v, fs())]
+        elif k == 'item-store':
+            lines.append('O[%s] = %s' % (fs(), rng.choice(['a', 'bump(%d)' % t, fs()])))
+        elif k == 'attr-store':
+            lines.append('O.yy = %s' % fs())
+        elif k == 'delete':
+            lines.append('del O[%s], O[%s]' % (fs(), fs()))
+        elif k == 'augassign':
+            v = var()
+            lines += ["%s = ''" % v, '%s += %s' % (v, fs())]
+        elif k == 'annassign':
+            lines.append('%s: str = %s' % (var(), fs()))
+        elif k == 'default-arg':
+            v, n0 = var(), t
+            nested[0] = True
+            lines += ['def g%d(p=%s):' % (n0, fs()), '    return (p, %s)' % fs(), '%s = g%d()' % (v, n0)]
+            nested[0] = False
+        elif k == 'lambda-body':
+            v, n0 = var(), t
+            nested[0] = True
+            lines += ['h%d = lambda: %s' % (n0, fs()), '%s = h%d()' % (v, n0)]
+            nested[0] = False
+        elif k == 'try-body':
+            v = var()
+            lines += ['%s = 0' % v, 'try:', '    %s = %s' % (v, fs()), 'except Err:', '    pass']
+        elif k == 'handler-body':
+            v = var()
+            lines += ['%s = 0' % v, 'try:', '    tr(%d99)' % t, 'except Err:', '    %s = %s' % (v, fs())]
+        elif k == 'finally-body':
+            v = var()
+            lines += ['%s = 0' % v, 'try:', '    tr(%d, a)' % (600 + t), 'finally:', '    %s = %s' % (v, fs())]
+        elif k == 'dict-display':
+            lines.append('%s = {%s: B.n, B.n: %s}' % (var(), fs(), fs()))
+        elif k == 'tuple-operands':
+            lines.append('%s = (B.n, %s, L[0], %s)' % (var(), fs(), fs()))
+        elif k == 'binop':
+            lines.append('%s = %s + %s' % (var(), fs(), fs()))
+        elif k == 'compare':
+            lines.append('%s = (%s < %s)' % (var(), fs(), fs()))
+        elif k == 'while-body':
+            v = var()
+            lines += ["%s = ''" % v, 'while B.n < 3:', '    %s = %s + %s' % (v, v, fs()), '    bump(%d)' % (800 + t)]
+        elif k == 'subscript-load':
+            lines.append('%s = O[%s, B.n]' % (var(), fs()))
+        elif k == 'boolop':
+            lines.append('%s = %s and %s' % (var(), fs(), fs()))
+        elif k == 'starred':
+            lines.append('%s = tr(%d, *%s, B.n)' % (var(), 600 + t, fs()))
+        else:
+            lines.append('%s = %s.join((%s, %s))' % (var(), fs(), fs(), fs()))
+    lines.append('return (%s)' % ', '.join(outs + ['B.n', 'G']))
+    return 'def f(a, b):\n' + ''.join('    ' + l + '\n' for l in lines), feats
+
+
+# One program (at least) for every expression / operator / statement kind of the grammar the random generators never
+# produce; nested calls in every operand position, so that any configuration has something to name.
+GRAMMAR = [
+    ('operators-arith', 'def f(a, b):\n    x = (tr(1, a) // (b * b + 1), tr(2, tr(3)) % 5, 2 ** (tr(4) % 4), tr(5, b) / 4)\n    return tr(6, x)\n'),
+    ('operators-bits', 'def f(a, b):\n    x = (tr(1, a) & 6, tr(2) | a, tr(3, tr(4)) ^ b, tr(5) << 2, tr(6, b) >> 1)\n    return tr(7, x)\n'),
+    ('operator-matmul', 'def f(a, b):\n    x = O @ tr(1, tr(2, a))\n    y = tr(3) + (O.o1 @ b)\n    return tr(4, x, y)\n'),
+    ('augmented-operators', 'def f(a, b):\n    x = tr(1, a)\n    x //= tr(2) + 1\n    x %= 7\n    x **= 2\n    x |= tr(3, tr(4))\n'
+                            '    x &= 255\n    x ^= b\n    x <<= 1\n    x >>= tr(5) % 2\n    y = O.o1\n    y @= tr(6, tr(7))\n    x /= 2\n    return (x, y)\n'),
+    ('compare-identity', 'def f(a, b):\n    x = tr(1, a) is None\n    y = tr(2, tr(3)) is not a\n    return tr(4, x, y)\n'),
+    ('compare-membership', 'def f(a, b):\n    x = tr(1, a) in (a, b, tr(2, tr(3)))\n    y = a not in mk(tr(4), b)\n    return tr(5, x, y)\n'),
+    ('global-nonlocal', 'def f(a, b):\n    global G\n    G = tr(1, tr(2, G))\n    n = tr(3)\n    def g(p):\n        nonlocal n\n'
+                        '        n = tr(4, tr(5, n), p)\n        return n\n    return (g(a), g(tr(6, b)), n, G)\n'),
+    ('imports', 'def f(a, b):\n    import math as m, operator\n    from math import floor as fl, ceil\n'
+                '    x = tr(1, fl(tr(2, a) + 0.5))\n    return tr(3, x, m.floor(tr(4)), operator.add(tr(5), ceil(b)))\n'),
+    ('classdef', 'def f(a, b):\n    class C:\n        k = tr(1, tr(2, a))\n        def m(self, p):\n            return tr(3, tr(4, p), self.k)\n'
+                 '    class D(C, metaclass=type):\n        j = tr(5, C.k)\n    return (C.k, D().m(tr(6, b)), D.j)\n'),
+    ('classdef-decorated', 'def f(a, b):\n    def deco(k):\n        return lambda c: (tr(k, 1), c)[1]\n    @deco(tr(1, tr(2)))\n    class C:\n        k = tr(3, a)\n'
+                           '    @deco(tr(4))\n    def g(p=tr(5, tr(6))):\n        return p\n    return (C.k, g())\n'),
+    ('await', 'async def f(a, b):\n    x = await aw(tr(1, a), tr(2, tr(3)))\n    y = tr(4, await aw(x))\n    return (x, y, await aw(b))\n'),
+    ('async-with', 'async def f(a, b):\n    async with acm(tr(1, tr(2, a))) as w, acm(tr(3)) as v:\n        y = await aw(w, tr(4, v))\n    return tr(5, y)\n'),
+    ('async-for', 'async def f(a, b):\n    x = 0\n    async for q in ait(tr(1, tr(2, a)), 5, b):\n        x = x + tr(3, tr(4, q))\n    else:\n        x = tr(5, x)\n    return x\n'),
+    ('async-nested', 'def f(a, b):\n    async def g(p):\n        return tr(1, await aw(tr(2, p)))\n    c = g(tr(3, a))\n    try:\n        c.send(None)\n'
+                     '    except StopIteration as e:\n        return tr(4, e.value)\n'),
+    ('yield', 'def f(a, b):\n    x = yield tr(1, tr(2, a))\n    y = yield (tr(3, x), tr(4))\n    yield\n    return tr(5, x, y)\n'),
+    ('yield-from', 'def f(a, b):\n    def g(p):\n        q = yield p\n        return tr(1, q, (yield tr(2, tr(3, p))))\n'
+                   '    x = yield from g(tr(4, tr(5, a)))\n    y = tr(6, (yield from g(b)))\n    return (x, y)\n'),
+    ('yield-operands', 'def f(a, b):\n    x = tr(1, (yield tr(2)), tr(3), (yield tr(4, tr(5))))\n    return x\n'),
+    ('match', 'def f(a, b):\n    x = 0\n    match mk(tr(1, tr(2, a)), b):\n        case [0, p]:\n            x = tr(3, tr(4, p))\n'
+              '        case [2, *q] if tr(5, tr(6)):\n            x = tr(7, q)\n        case [_, 3 | 4 as z]:\n            x = tr(8, z)\n'
+              '        case _:\n            x = tr(9)\n    return x\n'),
+    ('match-patterns', 'def f(a, b):\n    x = ()\n    for v in (None, {"k": tr(1, a)}, cm(tr(2)), "s", 1.5):\n        match v:\n            case None:\n'
+                       '                x = x + (tr(3),)\n            case {"k": w, **rest}:\n                x = x + (tr(4, tr(5, w)),)\n'
+                       '            case CM(k=kk):\n                x = x + (tr(6, kk),)\n            case str():\n                x = x + (tr(7),)\n'
+                       '            case other:\n                x = x + (tr(8),)\n    return x\n'),
+    ('try-star', 'def f(a, b):\n    x = 0\n    try:\n        x = tr(1, tr(2, a))\n        tr(399)\n    except* Err as g:\n        x = tr(4, tr(5, x))\n'
+                 '    else:\n        x = 7\n    finally:\n        x = tr(6, x)\n    return x\n'),
+    ('type-alias-typevars', 'def f(a, b):\n    type T = tr(1, tr(2))\n    def g[S, *Ts, **P](p: S):\n        return tr(3, tr(4, p))\n    return g(tr(5, a))\n'),
+    ('set-and-dict-displays', 'def f(a, b):\n    x = {tr(1, a), tr(2, tr(3))}\n    y = {tr(4): tr(5, tr(6)), **{"z": tr(7)}}\n    return tr(8, x, y)\n'),
+    ('slices', 'def f(a, b):\n    x = mk(1, 2, 3, 4)[tr(1) % 2:tr(2, tr(3)) % 5:1]\n    y = O[tr(4):, ::tr(5), ...]\n    return tr(6, x, y)\n'),
+    ('constants', 'def f(a, b):\n    return tr(1, (1.5, 2j, b"x", "s", None, True, ..., -1), tr(2, 0.25))\n'),
+    ('starred-assignment', 'def f(a, b):\n    p, *q = mk(tr(1, a), tr(2), tr(3, tr(4)))\n    [r, (s, *t)] = (tr(5), (tr(6), 7, 8))\n    return tr(9, p, q, r, s, t)\n'),
+    ('raise-from', 'def f(a, b):\n    try:\n        raise E(tr(1, tr(2))) from E(tr(3))\n    except Err as e:\n        return tr(4, a)\n'),
+    ('lambda-args', 'def f(a, b):\n    h = lambda p, /, q=1, *r, s=2, **u: (p, q, r, s, u)\n    return tr(1, h(a, b, 3, s=4, z=5))\n'),
+    ('posonly-kwonly', 'def f(a, b):\n    def g(p, /, q=tr(1, tr(2)), *r, s=tr(3), **u) -> None:\n        return tr(4, p, q, r, s)\n    return g(a, b, 9, s=tr(5, tr(6)))\n'),
+]
+
+
+# configurations under which the pieces of an f-string are not named themselves but what is inside them is
+FSTRING_CFGS = [
+    [['edge', None, None, ['Constant', 'Name'], False], ['edge', ['JoinedStr'], None, None, False],
+     ['edge', ['FormattedValue'], 'format_spec', None, False], ['any', True]],
+    [['edge', None, None, ['Constant', 'Name'], False], ['edge', None, None, ['JoinedStr', 'FormattedValue'], False], ['any', True]],
+    [['edge', None, None, ['Constant'], False], ['edge', ['FormattedValue'], 'value', None, True]],
+]
+
+
 INPUTS = [(0, 1), (2, -1), (5, 3)]
 
 # Hand-written programs: the DESIGN §8 witnesses and one per hazard class (always in the corpus).
@@ -810,6 +1119,10 @@ FIXED = [
     ('lazy-nested-assert', 'def f(a, b):\n    assert b, tr(1, tr(2))\n    return tr(3, a)\n'),
     ('annotation-nested-call', 'def f(a, b):\n    y: tr(1, tr(2)) = tr(3, a)\n    return tr(4, y)\n'),
     ('annotation-typing-names', 'def f(a, b):\n    tr(1, a)\n    y: Dict[str, Widget] = b\n'),
+    ('fstring-later-field-mutates', 'def f(a, b):\n    return f"{L}|{L.append(1)}"\n'),
+    ('fstring-format-before-next-field', 'def f(a, b):\n    x = f"{F}-{tr(1, a)}"\n    return tr(2, x)\n'),
+    ('fstring-nested-spec', 'def f(a, b):\n    x = f"{F!r:>{tr(1)}}|{bump(2)}"\n    return (x, B.n)\n'),
+    ('fstring-trivial', 'def f(a, b):\n    x = f"a={a}, b={b!r:>4}"\n    return tr(1, x)\n'),
     ('dropped-pending', 'def f(a, b):\n    tr(1)\n    x: int = tr(2, tr(3))\n'),
     ('plain-1', 'def f(a, b):\n    x = tr(1, a + b, k=tr(2))\n    return tr(3, x * 2, O.yy)\n'),
     ('plain-2', 'def f(a, b):\n    for v in (tr(1), tr(2, a)):\n        if v < tr(3, v):\n            O[v] = b\n    return tr(4)\n'),
